@@ -234,6 +234,7 @@ def run(prog, chk):
     rets = [unparse(r.value) for r in walk_no_defs(ia.node) if isinstance(r, ast.Return)]
     chk.ob("R2.is-active", "Transport.is_active", rets == ["self.active"], ia.loc, "returns %s" % rets)
     _handlers_before_teardown_total(prog, chk, run_f)
+    _no_lock_left_held(prog, chk)
 
 
 def _handlers_before_teardown_total(prog, chk, run_f):
@@ -286,3 +287,31 @@ def _handlers_before_teardown_total(prog, chk, run_f):
                "handler body %s" % ("has no unguarded subscript of the exception's arguments" if not bad else
                                     "can raise before the teardown block runs: " + "; ".join(bad)))
     chk.floor("R3", "recording handlers of run()", nh, 4)
+
+
+def _no_lock_left_held(prog, chk):
+    """R4: a lock that is still held when a function returns or raises blocks the next caller for ever - the second
+    blocking call after a connection loss never returns.  For every function of the package that acquires a lock
+    with an explicit acquire() the held-lock dataflow must be empty at every explicit exit (return, fall-through,
+    raise statement)."""
+    from ..core.locks import LockFlow
+    n = 0
+    for f in sorted(prog.all_functions(), key=lambda f: f.qual):
+        if not any(isinstance(c, ast.Call) and isinstance(c.func, ast.Attribute) and c.func.attr == "acquire" and not c.args
+                   for c in walk_no_defs(f.node)):
+            continue
+        n += 1
+        lf = LockFlow(prog, f, implicit=False)
+        leaks = sorted(lf.held_at_exit())
+        detail = "every explicit exit releases what it acquired"
+        if leaks:
+            # name the exit
+            where = []
+            for ex in (lf.cfg.exit.id, lf.cfg.raise_exit.id):
+                for (pn, lab) in lf.cfg.pred[ex]:
+                    for s in lf.outs.get(pn, ()):
+                        if s:
+                            where.append("L%d" % lf.cfg.nodes[pn].lineno)
+            detail = "%s still held at the exit(s) reached from %s" % (leaks, sorted(set(where)))
+        chk.ob("R4.no-exit-leaves-a-lock-held", f.qual, not leaks, f.loc, detail)
+    chk.floor("R4", "functions with explicit acquire()", n, 40)
